@@ -267,7 +267,9 @@ def gen_stmts(rnd, g, dd, used):
         imp_outs = [gen_name(rnd, used) for _ in range(rnd.choice([0, 0, 1, 1, 2]))]
         imp_ins = []
         for _ in range(rnd.choice([0, 1, 1, 2, 3])):
-            imp_ins.append(rnd.choice(allnodes) if rnd.random() < 0.5 else gen_name(rnd, used))
+            # (the dyndep file itself only rarely: that is the undefined-behaviour case ub_self_input)
+            cand = allnodes if rnd.random() < 0.03 else [x for x in allnodes if x != dd]
+            imp_ins.append(rnd.choice(cand) if cand and rnd.random() < 0.5 else gen_name(rnd, used))
         st.append(Stmt(i, out, imp_outs, imp_ins, rnd.random() < 0.35))
     rnd.shuffle(st)
     return st
@@ -309,6 +311,9 @@ def render(rnd, stmts, fancy):
     sp = (lambda: b' ' * rnd.choice([1, 1, 1, 2, 3])) if fancy else (lambda: b' ')
     osp = (lambda: b' ' * rnd.choice([0, 0, 1, 2])) if fancy else (lambda: b'')
     lines = []
+    def pipe_then(x):
+        # "|@" and "||" are tokens of their own: keep a blank before a name that starts with '@'
+        return b'|' + (b' ' if x[:1] in (b'@', b'|') else osp()) + x
     def junk():
         if fancy and rnd.random() < 0.2:
             lines.append(rnd.choice([b'', b'# comment', b'   ', b'  # indented comment', b'#']) + nl)
@@ -319,10 +324,10 @@ def render(rnd, stmts, fancy):
     for st in stmts:
         l = b'build' + sp() + spell(rnd, st.out, fancy)
         if st.imp_outs or (fancy and rnd.random() < 0.1):
-            l += osp() + b'|' + osp() + sp().join(spell(rnd, x, fancy) for x in st.imp_outs)
+            l += osp() + pipe_then(sp().join(spell(rnd, x, fancy) for x in st.imp_outs))
         l += osp() + b':' + osp() + b'dyndep'
         if st.imp_ins or (fancy and rnd.random() < 0.1):
-            l += osp() + b'|' + osp() + sp().join(spell(rnd, x, fancy) for x in st.imp_ins)
+            l += osp() + pipe_then(sp().join(spell(rnd, x, fancy) for x in st.imp_ins))
         l += osp()
         lines.append(l + nl)
         if fancy and rnd.random() < 0.08: lines.append(b'# a comment before the binding' + nl)
@@ -441,11 +446,12 @@ def variants(rnd, g, dd, used, stmts, text, full):
         ('version_noeq', b'ninja_dyndep_version\n' + rest), ('version_noeq2', b'ninja_dyndep_version 1\n' + rest),
         ('version_name', b'ninja_dyndep_versio = 1\n' + rest), ('version_name2', b'ninja_dyndep_version2 = 1\n' + rest),
     ]:
-        v.append((tag, c))
+        if full or rnd.random() < 0.2: v.append((tag, c))
     for ver in [b'0', b'1.1', b'2', b'1.0.0', b'', b'$x', b'-1', b'+1', b' 1', b'$ 1', b'1x', b'x1', b'1.x', b'1.0x', b'1.-0', b'1.+0', b'1. 0',
                 b'4294967297', b'1.4294967296', b'18446744073709551617', b'9223372036854775808', b'-4294967295', b'1.9223372036854775807',
                 b'1.99999999999999999999', b'99999999999999999999', b'1..1', b'.1', b'1.\t0', b'\t1', b'1 .1', b'1.0.1', b'0x1', b'1e0', b'1,0']:
-        v.append(('version:' + ver.decode('latin1'), b'ninja_dyndep_version = ' + ver + b'\n' + rest))
+        if full or rnd.random() < 0.2:
+            v.append(('version:' + ver.decode('latin1'), b'ninja_dyndep_version = ' + ver + b'\n' + rest))
     # byte-level mutations of both renderings
     for src, tagp in ((text, ''), (plain, '_plain')):
         for _ in range(40 if full else 8):
@@ -493,10 +499,20 @@ def check(seed=1, n=20000):
     def mm(what, i, a, b):
         tag, g, dd, c, st = cases[i]
         mismatches.append({'tag': tag, 'what': what, 'impl': a, 'model': b, 'manifest': manifest_text(g), 'dyndep': dd, 'content': c})
+    ubself = set()
     for i, (a, b) in enumerate(zip(io, mo)):
         tag = cases[i][0]
         stats['cases'] += 1
         stats['tag:' + tag.split(':')[0]] += 1
+        if b.endswith(' UBSELF'):
+            # the file names itself as an implicit input: the C++ modifies the vector it iterates
+            # (use-after-free under ASan).  A crash is the known finding; otherwise compare.
+            b = b[:-7]; mo[i] = b; ubself.add(i)
+            stats['ub_self_input'] += 1
+            if a.startswith('CRASH'):
+                stats['ub_self_input_crash:' + a] += 1
+                if 'CRASH' not in samples: samples['CRASH'] = (tag, manifest_text(cases[i][1]), cases[i][3])
+                continue
         if a.startswith('MANIFEST_ERR') or ' POST ' not in a:
             mm('generator: manifest rejected', i, a, b); continue
         res = a.split(' POST ', 1)[1]
@@ -523,6 +539,7 @@ def check(seed=1, n=20000):
         model_inl = rm[k][4:]
         if real_inl != model_inl:
             mm('inline: model inline_dyndep vs real parse of the inlined manifest', i, ri[k], rm[k]); continue
+        if io[i].startswith('CRASH'): continue
         real_post = io[i].split(' POST ', 1)[1]
         bound = [e for e in g.edges if e.dyndep == dd]
         with_stmt = {s.ei: s for s in st}
